@@ -650,3 +650,25 @@ func parseModLoc(s, file string, line int) *ModLoc {
 	m.Expr = x
 	return m
 }
+
+// splitConj splits a clause into independently provable parts:
+// A && B, A ==> (B && C), forall x :: A ==> (B && C).
+func splitConj(x *SExpr) []*SExpr {
+	switch {
+	case x.Op == "bin" && x.Name == "&&":
+		return append(splitConj(x.Args[0]), splitConj(x.Args[1])...)
+	case x.Op == "bin" && x.Name == "==>":
+		var out []*SExpr
+		for _, r := range splitConj(x.Args[1]) {
+			out = append(out, &SExpr{Op: "bin", Name: "==>", Args: []*SExpr{x.Args[0], r}})
+		}
+		return out
+	case x.Op == "forall":
+		var out []*SExpr
+		for _, r := range splitConj(x.Args[0]) {
+			out = append(out, &SExpr{Op: "forall", Binders: x.Binders, Args: []*SExpr{r}})
+		}
+		return out
+	}
+	return []*SExpr{x}
+}
